@@ -35,6 +35,35 @@ type tsym struct {
 	s     sym
 	noexp map[string]bool // aliases this token stems from (never expanded again inside their own expansion)
 	also  bool            // the preceding alias value ended in a blank: examine this word too
+	// a command substitution whose inner command list is unfolded as well: open + inner + close
+	open, close string
+	in          []tsym
+}
+
+// symOf: the symbol a token stands for (a substitution token is rendered from its inner list).
+func (t tsym) symOf() sym {
+	if t.open == "" {
+		return t.s
+	}
+	inner := make([]sym, len(t.in))
+	for i := range t.in {
+		inner[i] = t.in[i].symOf()
+	}
+	text := t.open + render(inner).src + t.close
+	return sym{text: text, kind: kWord, parts: func() ast.Word { return ast.Word{wLit(text)} }}
+}
+
+// substToken recognises the substitution symbols whose inner command is a single word ($(x), `x`).
+func substToken(text string, no map[string]bool) (tsym, bool) {
+	for _, oc := range [][2]string{{"$(", ")"}, {"`", "`"}} {
+		if strings.HasPrefix(text, oc[0]) && strings.HasSuffix(text, oc[1]) && len(text) > len(oc[0])+len(oc[1]) {
+			inner := text[len(oc[0]) : len(text)-len(oc[1])]
+			if s, ok := symTable[inner]; ok && s.kind == kWord && isNameStr(inner) {
+				return tsym{open: oc[0], close: oc[1], noexp: no, in: []tsym{{s: s, noexp: no}}}, true
+			}
+		}
+	}
+	return tsym{}, false
 }
 
 func plainWordName(s sym) (string, bool) {
@@ -56,12 +85,41 @@ func plainWordName(s sym) (string, bool) {
 func unfold(ss []sym, table map[string]string) (out []sym, steps int) {
 	ts := make([]tsym, len(ss))
 	for i, s := range ss {
-		ts[i] = tsym{s: s}
+		if st, ok := substToken(s.text, nil); ok {
+			ts[i] = st
+		} else {
+			ts[i] = tsym{s: s}
+		}
 	}
+	res, steps := unfoldTS(ts, table, 0)
+	if res == nil {
+		return nil, steps
+	}
+	out = make([]sym, len(res))
+	for i := range res {
+		out[i] = res[i].symOf()
+	}
+	return out, steps
+}
+
+func unfoldTS(ts []tsym, table map[string]string, depth int) ([]tsym, int) {
+	steps := 0
 	for steps = 0; steps < 200; steps++ {
+		// the command lists inside substitutions first (they inherit what their token stems from)
+		if depth < 6 {
+			for i := range ts {
+				if ts[i].open != "" {
+					in, n := unfoldTS(ts[i].in, table, depth+1)
+					if in == nil {
+						return nil, n
+					}
+					ts[i].in = in
+				}
+			}
+		}
 		cur := make([]sym, len(ts))
 		for i := range ts {
-			cur[i] = ts[i].s
+			cur[i] = ts[i].symOf()
 		}
 		m := gramParse(cur)
 		// leftmost replaceable word: in command-name position, or flagged by a trailing blank
@@ -70,7 +128,10 @@ func unfold(ss []sym, table map[string]string) (out []sym, steps int) {
 			if !(m.cmdNameAt[i] || ts[i].also) {
 				continue
 			}
-			name, ok := plainWordName(ts[i].s)
+			name, ok := "", false
+			if ts[i].open == "" {
+				name, ok = plainWordName(ts[i].s)
+			}
 			if !ok {
 				ts[i].also = false
 				continue
@@ -86,7 +147,7 @@ func unfold(ss []sym, table map[string]string) (out []sym, steps int) {
 			break
 		}
 		if at < 0 {
-			return cur, steps
+			return ts, steps
 		}
 		name := ts[at].s.text
 		val := table[name]
@@ -96,7 +157,11 @@ func unfold(ss []sym, table map[string]string) (out []sym, steps int) {
 		}
 		var repl []tsym
 		for _, t := range strings.Fields(val) {
-			repl = append(repl, tsym{s: symTable[t], noexp: no})
+			if st, ok := substToken(t, no); ok {
+				repl = append(repl, st)
+			} else {
+				repl = append(repl, tsym{s: symTable[t], noexp: no})
+			}
 		}
 		if ts[at].also && len(repl) > 0 {
 			repl[0].also = true // the replacement stands where the examined word stood and is examined in turn
@@ -317,30 +382,36 @@ func c17TextRun(w *W) {
 		}
 		w.Count("states", 1)
 		w.Announce("alias x=" + strconv.Quote(v))
-		env := interp.NewExecEnv("sh")
-		env.Aliases["x"] = v
-		for _, rest := range []string{"", " a\n", "\nb\n", " | b\n", " b\")'`}\n", " <<E\ny\nE\n"} {
-			src := "x" + rest
-			tail := rest
-			if tail == "" {
-				tail = " "
+		// the alias is called x, or has a name that is legal for an alias but is not a Name (XBD 3.231)
+		for _, an := range []string{"x", "x-1", "..", "2x", ",x", "x+"} {
+			if an != "x" && len(rs) > 2 {
+				continue // the other names with the values of ≤ 2 characters
 			}
-			text := strings.TrimRight(v, " \t") + " " + strings.TrimLeft(tail, " ")
-			if strings.HasPrefix(tail, "\n") {
-				text = strings.TrimRight(v, " \t") + " " + tail
-			}
-			w.Count("evaluations", 1)
-			w.Count("text_level_alias_values", 1)
-			w.Count("traces_validated_against_impl", 1)
-			w.Count("distinct_nontrivial", 1)
-			got, ok1 := parseAllEnv(env, src)
-			want, ok2 := parseAllEnv(nil, text)
-			c := c17Case{Aliases: map[string]string{"x": v}, Syms: []string{"%text"}, Src: src, Unfold: text}
-			switch {
-			case !ok1 || !ok2:
-				w.Violation("", c, fmt.Sprintf("alias x=%q source %q: %s / text %q: %s", v, src, got, text, want))
-			case got != want:
-				w.Violation("alias-text", c, fmt.Sprintf("alias x=%q source %q gives %s; the text with x replaced, %q, gives %s", v, src, got, text, want))
+			env := interp.NewExecEnv("sh")
+			env.Aliases[an] = v
+			for _, rest := range []string{"", " a\n", "\nb\n", " | b\n", " b\")'`}\n", " <<E\ny\nE\n"} {
+				src := an + rest
+				tail := rest
+				if tail == "" {
+					tail = " "
+				}
+				text := strings.TrimRight(v, " \t") + " " + strings.TrimLeft(tail, " ")
+				if strings.HasPrefix(tail, "\n") {
+					text = strings.TrimRight(v, " \t") + " " + tail
+				}
+				w.Count("evaluations", 1)
+				w.Count("text_level_alias_values", 1)
+				w.Count("traces_validated_against_impl", 1)
+				w.Count("distinct_nontrivial", 1)
+				got, ok1 := parseAllEnv(env, src)
+				want, ok2 := parseAllEnv(nil, text)
+				c := c17Case{Aliases: map[string]string{an: v}, Syms: []string{"%text"}, Src: src, Unfold: text}
+				switch {
+				case !ok1 || !ok2:
+					w.Violation("", c, fmt.Sprintf("alias x=%q source %q: %s / text %q: %s", v, src, got, text, want))
+				case got != want:
+					w.Violation("alias-text", c, fmt.Sprintf("alias %s=%q source %q gives %s; the text with the word replaced, %q, gives %s", an, v, src, got, text, want))
+				}
 			}
 		}
 	})
